@@ -26,9 +26,13 @@ type Solver struct {
 	Name    string
 	cmd     *exec.Cmd
 	in      io.WriteCloser
-	out     *bufio.Reader
 	defined map[int]bool
 	seq     int
+	lines   chan string
+	kind    string
+	toMs    int
+	Killed  int
+	Crashes int
 	Log     io.Writer // optional: full transcript
 	// statistics
 	NSat, NUnsat, NUnknown int
@@ -38,7 +42,16 @@ type Solver struct {
 
 // Kind: "z3", "z3-new", "cvc5", "cvc5-int".
 func NewSolver(kind string, timeoutMs int) (*Solver, error) {
+	s := &Solver{Name: kind, kind: kind, toMs: timeoutMs}
+	if err := s.start(); err != nil {
+		return nil, err
+	}
+	return s, nil
+}
+
+func (s *Solver) start() error {
 	var cmd *exec.Cmd
+	kind, timeoutMs := s.kind, s.toMs
 	switch kind {
 	case "z3":
 		cmd = exec.Command("/usr/bin/z3", "-in", "-smt2", fmt.Sprintf("-t:%d", timeoutMs))
@@ -49,23 +62,40 @@ func NewSolver(kind string, timeoutMs int) (*Solver, error) {
 	case "cvc5-int":
 		cmd = exec.Command("cvc5", "--lang=smt2", "--incremental", "--produce-models", "--solve-bv-as-int=sum", fmt.Sprintf("--tlimit-per=%d", timeoutMs))
 	default:
-		return nil, fmt.Errorf("unknown solver kind %q", kind)
+		return fmt.Errorf("unknown solver kind %q", kind)
 	}
 	in, err := cmd.StdinPipe()
 	if err != nil {
-		return nil, err
+		return err
 	}
 	out, err := cmd.StdoutPipe()
 	if err != nil {
-		return nil, err
+		return err
 	}
 	cmd.Stderr = os.Stderr
 	if err := cmd.Start(); err != nil {
-		return nil, err
+		return err
 	}
-	s := &Solver{Name: kind, cmd: cmd, in: in, out: bufio.NewReaderSize(out, 1<<20), defined: map[int]bool{}}
+	s.cmd, s.in = cmd, in
+	s.defined = map[int]bool{}
+	s.lines = make(chan string, 1024)
+	rd := bufio.NewReaderSize(out, 1<<20)
+	ch := s.lines
+	go func() {
+		for {
+			line, err := rd.ReadString('\n')
+			line = strings.TrimSpace(line)
+			if line != "" {
+				ch <- line
+			}
+			if err != nil {
+				close(ch)
+				return
+			}
+		}
+	}()
 	s.send("(set-option :produce-models true)\n(set-logic ALL)\n")
-	return s, nil
+	return nil
 }
 
 func (s *Solver) Close() {
@@ -147,17 +177,33 @@ func (s *Solver) define(t *Term, sb *strings.Builder) string {
 	return tname(t)
 }
 
+var errCrashed = fmt.Errorf("solver process exited")
+
+var errWatchdog = fmt.Errorf("solver watchdog: no answer within the hard time limit; process killed")
+
 func (s *Solver) readLine() (string, error) {
-	for {
-		line, err := s.out.ReadString('\n')
-		if err != nil {
-			return strings.TrimSpace(line), err
-		}
-		line = strings.TrimSpace(line)
-		if line == "" {
-			continue
+	limit := time.Duration(2*s.toMs+10000) * time.Millisecond
+	select {
+	case line, ok := <-s.lines:
+		if !ok {
+			// the solver process exited (crash): restart on the next query
+			s.Crashes++
+			if s.cmd != nil {
+				s.cmd.Wait()
+			}
+			s.cmd = nil
+			return "", errCrashed
 		}
 		return line, nil
+	case <-time.After(limit):
+		// the soft timeout was not honoured: kill and restart
+		s.Killed++
+		if s.cmd != nil && s.cmd.Process != nil {
+			s.cmd.Process.Kill()
+			s.cmd.Wait()
+		}
+		s.cmd = nil
+		return "", errWatchdog
 	}
 }
 
@@ -166,15 +212,24 @@ func (s *Solver) readLine() (string, error) {
 func (s *Solver) Check(assertions []*Term, modelVars []*Term) (Result, []uint64) {
 	t0 := time.Now()
 	defer func() { s.Time += time.Since(t0) }()
+	if s.cmd == nil {
+		if err := s.start(); err != nil {
+			s.Errors = append(s.Errors, "restart failed: "+err.Error())
+			s.NUnknown++
+			return Unknown, nil
+		}
+	}
 	var sb strings.Builder
 	names := make([]string, 0, len(assertions))
 	for _, a := range assertions {
-		if a.IsTrue() {
-			continue
-		}
 		if a.IsFalse() {
 			s.NUnsat++
 			return Unsat, nil
+		}
+	}
+	for _, a := range assertions {
+		if a.IsTrue() {
+			continue
 		}
 		names = append(names, s.define(a, &sb))
 	}
@@ -196,8 +251,12 @@ func (s *Solver) Check(assertions []*Term, modelVars []*Term) (Result, []uint64)
 	for {
 		line, err := s.readLine()
 		if err != nil {
-			s.Errors = append(s.Errors, "solver died: "+err.Error()+" "+line)
-			break
+			if err != errWatchdog && err != errCrashed {
+				s.Errors = append(s.Errors, "solver died: "+err.Error()+" "+line)
+			}
+			res = Unknown
+			s.NUnknown++
+			return res, nil
 		}
 		if strings.Contains(line, marker) {
 			break
@@ -230,8 +289,11 @@ func (s *Solver) Check(assertions []*Term, modelVars []*Term) (Result, []uint64)
 		for {
 			line, err := s.readLine()
 			if err != nil {
-				s.Errors = append(s.Errors, "solver died: "+err.Error())
-				break
+				if err != errWatchdog && err != errCrashed {
+					s.Errors = append(s.Errors, "solver died: "+err.Error())
+				}
+				s.NUnknown++
+				return Unknown, nil
 			}
 			if strings.Contains(line, marker) {
 				break
@@ -259,29 +321,6 @@ func (s *Solver) Check(assertions []*Term, modelVars []*Term) (Result, []uint64)
 		s.NUnknown++
 	}
 	return res, model
-}
-
-func (s *Solver) readSexp() string {
-	var sb strings.Builder
-	depth := 0
-	started := false
-	for {
-		b, err := s.out.ReadByte()
-		if err != nil {
-			break
-		}
-		sb.WriteByte(b)
-		if b == '(' {
-			depth++
-			started = true
-		} else if b == ')' {
-			depth--
-		}
-		if started && depth == 0 {
-			break
-		}
-	}
-	return sb.String()
 }
 
 // parseModel parses "((name #x..) (name #b..) (name true) ...)" into the
